@@ -219,7 +219,7 @@ pub fn run(ctx: &Ctx) {
         check_twin,
     );
     let max_len = t.pick(300usize, 1500);
-    let n = t.pick(200_000u64, 2_000_000);
+    let n = t.pick(200_000u64, 5_000_000);
     ctx.generated("twins", "twin", n, "canonical value x scale in +-60 / +-2000 / +-99000 x 0..60 (..900) extra zeros each", move || twin_strategy(max_len), check_twin);
     ctx.generated("limb-structured", "twin", n / 2, "integers built from zero / all-ones / random 64-bit limbs and forced to end in 0..4 decimal zeros, all-ones limbs, near powers of two, boundary words; against re-representations", structured_strategy, check_twin);
     ctx.generated("zeros", "twin", n / 4, "zero with two scales anywhere in [-10^5, 10^5], both construction signs", zero_strategy, check_twin);
